@@ -74,10 +74,24 @@ func init() {
 		return nil
 	}
 
+	// setlimit: the configured collision limit changes between two operations (no task is alive).  Groups
+	// formed under a more generous limit then exceed the new one: new keys for those digests must be refused,
+	// updates and removals keep working.
+	extraOps["setlimit"] = func(w *World, st *Step) *Violation {
+		w.Cfg.CollLimit = uint32(st.N)
+		atree.VerifSetMaxCollisionLimitPerDigest(w.Cfg.CollLimit)
+		w.Stats.Inc("c12.limit-changed")
+		w.result("setlimit %d", st.N)
+		return nil
+	}
+	extraGens["setlimit"] = func(g *Gen) (Step, bool) {
+		return Step{Op: "setlimit", N: []int{0, 1, 2, 3, 7, 255}[g.R.Intn(6)]}, true
+	}
+
 	stdProp(&PropSpec{
 		ID: "C12", Level: "exploration",
 		Verdict: []string{"collide.", "res.map", "deep.", "struct.", "witness.verify", "flag.", "reach.", "order", "panic", "reopen"},
-		Rule: "root maps created with adversarial harness digesters: per-level alphabet sizes drawn independently from {1,2,3,5,64,unbounded} for 1-4 levels (all levels collide, first only, deep only ...), collision limit drawn from {0,1,2,3,7,255}; insert/update/remove/pop histories over those keys with value sizes that push inline groups over the element limit (spill to an external group) and back (collapse); dictionary semantics step by step, group structure by the independent parser (nesting levels, digest order, external groups flagged and referenced once), iteration order incl. insertion order among full collisions, and the limit rule computed by the model from its own digest table (refusal = CollisionLimitError, no trace in write set or would-be committed bytes; updates always accepted). Non-trivial = an inline group existed, and a spill or a last-level list or a limit refusal occurred; distinct by trace hash",
+		Rule: "root maps created with adversarial harness digesters: per-level alphabet sizes drawn independently from {1,2,3,5,64,unbounded} for 1-4 levels (all levels collide, first only, deep only ...), collision limit drawn from {0,1,2,3,7,255} and, in two runs out of three, changed between operations (groups formed under a generous limit then exceed a stricter one); insert/update/remove/pop histories over those keys with value sizes that push inline groups over the element limit (spill to an external group) and back (collapse); dictionary semantics step by step, group structure by the independent parser (nesting levels, digest order, external groups flagged and referenced once), iteration order incl. insertion order among full collisions, and the limit rule computed by the model from its own digest table (refusal = CollisionLimitError, no trace in write set or would-be committed bytes; updates always accepted). Non-trivial = an inline group existed, and a spill or a last-level list or a limit refusal occurred; distinct by trace hash",
 		ExpectedReach: []string{"reach.inline-group", "reach.external-group", "reach.last-level-list", "reach.group-level>=2", "c12.limit-refusal-predicted", "res.map.update"},
 	}, stdHooks{
 		config: func(r *Rng, tier string) Config {
@@ -98,6 +112,7 @@ func init() {
 			w["m.set"] = 30
 			w["m.remove"] = 14
 			w["a.append"], w["a.remove"] = 2, 1
+			w["setlimit"] = []int{0, 1, 2}[r.Intn(3)]
 			return &Profile{
 				Name: "collide", W: w, MaxRoots: r.Range(1, 2), Owners: []uint64{1, 2}[:r.Range(1, 2)],
 				RootMapShare: 1, MapShare: 0.5, NestProb: []float64{0, 0.05}[r.Intn(2)], MaxDepth: 1, WrapProb: 0.05,
